@@ -109,3 +109,29 @@ def _guards(loop: ast.For, st: ast.AST) -> list:
         return False
     rec(loop.body, [])
     return out
+
+
+def check(ctx, col, rule: str, modules: tuple, what: str = "the scanned modules"):
+    """Zero-expected rule with kept positive examples."""
+    import os
+    from ..model import Repo
+    n_defs = hits = 0
+    for d in ctx.repo.all_defs():
+        if d.module.name not in modules or d.is_lambda:
+            continue
+        n_defs += 1
+        for loop, st, arr, rd in find(d):
+            hits += 1
+            col.bad(rule, d.qualname, d.loc(st), f"recurrence over `{arr}` along the row order",
+                    f"`{norm_src(st)}` inside `for {norm_src(loop.target)} in {norm_src(loop.iter)}` depends on "
+                    f"`{norm_src(rd)}` (the parent's slot, filled by an earlier iteration only if the parent has a "
+                    f"smaller row index): the result depends on the node numbering, which well-formed trees do not "
+                    f"constrain beyond the root being first", stmt=f"rec:{arr}")
+    col.analysed[f"order_scope_defs:{rule}"] = n_defs
+    here = os.path.dirname(os.path.dirname(os.path.abspath(__file__)))
+    fx = Repo(here, pkg="fixtures")
+    found = {d.name: len(find(d)) for d in fx.all_defs() if d.module.name.endswith("orderdep_positive")}
+    ok = found.get("path_length_forward") == 1 and found.get("mark_forward") == 1 and found.get("not_a_recurrence") == 0
+    col.check(ok, rule, "sa.fixtures.orderdep_positive", "sa/fixtures/orderdep_positive.py:1",
+              f"lint recognises its kept positive examples ({n_defs} defs of {what} scanned, {hits} hit(s))",
+              str(found), f"fixture results {found}: the lint no longer recognises its positive examples", stmt="fixture")
